@@ -33,6 +33,10 @@ TReset == Step("reset") /\ scen' = E.scen /\ prod' = EmptyMap /\ taken' = EmptyM
           /\ live' = {} /\ sig' = {} /\ wait' = EmptyMap /\ NoFlag
 TIns == Step("ins") /\ live' = live \cup {E.k} /\ sig' = sig \cup {E.k}       \* insert signals the queue
         /\ UNCHANGED <<scen, prod, taken, deliv, wait>> /\ NoFlag
+\* a new connection under a key that is still queued: it supersedes the old one; what the old one had not handed out is gone
+TReins == Step("reins") /\ live' = live \cup {E.k} /\ sig' = sig \cup {E.k} /\ prod' = Put(prod, E.k, Get(taken, E.k, 0))
+          /\ UNCHANGED <<scen, taken, deliv, wait>> /\ NoFlag
+TSpollOld == Step("spoll_old") /\ UNCHANGED <<scen, prod, taken, deliv, live, sig, wait>> /\ NoFlag
 TProd == Step("prod") /\ prod' = Put(prod, E.k, Get(prod, E.k, 0) + 1)
          /\ UNCHANGED <<scen, taken, deliv, live, sig, wait>> /\ NoFlag
 TClose == Step("close") /\ UNCHANGED <<scen, prod, taken, deliv, live, sig, wait>> /\ NoFlag
@@ -76,7 +80,7 @@ TIdle == Step("idle") /\ UNCHANGED <<scen, prod, taken, deliv, live, sig, wait>>
    ELSE IF ~E.parked /\ \E k \in live : Readable(k) THEN NoFlag   \* receiver simply stopped polling (script end)
    ELSE NoFlag
 
-TNext == TReset \/ TIns \/ TProd \/ TClose \/ TFire \/ TRm \/ TSpoll \/ TPoll \/ TCancel \/ TRet \/ TIdle \/ TExhaust \/ TLivelock
+TNext == TReset \/ TIns \/ TProd \/ TClose \/ TFire \/ TRm \/ TSpoll \/ TPoll \/ TCancel \/ TRet \/ TIdle \/ TExhaust \/ TLivelock \/ TReins \/ TSpollOld
 TSpec == TInit /\ [][TNext]_tvars
 Accepted == Consumed
 =============================================================================
